@@ -7,7 +7,7 @@ W="/tmp/mut/$P"; M="$W/_mutant/$X"; D="/verif/seeded/$P-$X"
 [ -f "$M/patch.diff" ] || { echo "no patch in $M"; exit 2; }
 conf=$(/verif/tools/confirm_mutant.sh "$W" "$X" 2>&1 | grep -v WARNING)
 echo "$conf"
-res=$(/verif/tools/test_mutant.sh "$M/patch.diff" "$TIER" 2>&1 | grep -v WARNING)
+res=$("${VQ:-/verif}"/tools/test_mutant.sh "$M/patch.diff" "$TIER" 2>&1 | grep -v WARNING)
 echo "$res"
 mkdir -p "$D"
 cp "$M/patch.diff" "$D/patch.diff"; cp "$M/demo.rs" "$D/demo.rs"; cp "$M/README.md" "$D/README.md" 2>/dev/null
